@@ -449,6 +449,18 @@ impl Hostile {
             _ => -x.iter().map(|a| (a * a).exp()).sum::<f64>(),
         }
     }
+    /// signed distance-like measure to the support boundary (positive inside), relative to the
+    /// scale of the state: states with |margin| below the backend's resolution cannot be classified
+    pub fn boundary_margin(&self, x: &[f64]) -> f64 {
+        let sc = x.iter().map(|a| a.abs()).fold(self.p.abs().max(1e-300), f64::max);
+        match self.kind {
+            0 => x[0] / sc,
+            1 => x.iter().cloned().fold(f64::INFINITY, f64::min) / sc,
+            2 => (self.p - x.iter().map(|a| a.abs()).fold(0.0, f64::max)) / sc,
+            3 => (self.p * self.p - x.iter().map(|a| a * a).sum::<f64>()) / (sc * sc),
+            _ => f64::INFINITY,
+        }
+    }
     pub fn start(&self, g: &mut crate::util::Sm64) -> Vec<f64> {
         match self.kind {
             0 => {
